@@ -93,16 +93,15 @@ theorem slotIdx_cases (neg : Bool) (n : Nat) (t : Bytes) :
 
 /-! ### `get` -/
 
-theorem conGet_doc (o : Opts) (self : Node) (keys : List Bytes) (obj : NMembers) (key : Bytes)
-    (hk : key ≠ []) :
+theorem conGet_doc (o : Opts) (self : Node) (keys : List Bytes) (obj : NMembers) (key : Bytes) :
     conGet o self (.doc keys obj) key =
       match lookupN key obj with
       | some n => .ok n
       | none => .err .missing := by
-  simp only [conGet, hk, if_false]
+  simp only [conGet]
   cases lookupN key obj <;> rfl
 
-theorem conGet_ary (o : Opts) (self : Node) (ns : List Node) (key : Bytes) (hk : key ≠ []) :
+theorem conGet_ary (o : Opts) (self : Node) (ns : List Node) (key : Bytes) :
     match readIdx o.neg ns.length key with
     | .at i => ∃ n, ns[i]? = some n ∧ conGet o self (.ary ns) key = .ok n
     | .bad => ∃ e, conGet o self (.ary ns) key = .err e
@@ -116,30 +115,30 @@ theorem conGet_ary (o : Opts) (self : Node) (ns : List Node) (key : Bytes) (hk :
     · obtain ⟨h0, h1⟩ := h
       have hlt : ¬ idx < 0 := by omega
       refine ⟨ns[i], by simp [hi], ?_⟩
-      simp [conGet, hk, ha, hlt, h1, hi]
+      simp [conGet, ha, hlt, h1, hi]
     · obtain ⟨h0, h1, h2, h3⟩ := h
       have h4 : ¬ idx < -(ns.length : Int) := by omega
       refine ⟨ns[i], by simp [hi], ?_⟩
-      simp [conGet, hk, ha, h0, h1, h4, h3, hi]
+      simp [conGet, ha, h0, h1, h4, h3, hi]
   | bad =>
     rw [hr] at this
     rcases this with ha | ⟨idx, ha, h | h⟩
-    · exact ⟨.other, by simp [conGet, hk, ha]⟩
+    · exact ⟨.other, by simp [conGet, ha]⟩
     · obtain ⟨h0, h1⟩ := h
       have hlt : ¬ idx < 0 := by omega
       have : ns[idx.toNat]? = none := by simp; omega
-      exact ⟨.invalidIndex, by simp [conGet, hk, ha, hlt, this]⟩
+      exact ⟨.invalidIndex, by simp [conGet, ha, hlt, this]⟩
     · obtain ⟨h0, h1⟩ := h
       rcases h1 with h1 | h1
-      · exact ⟨.invalidIndex, by simp [conGet, hk, ha, h0, h1]⟩
+      · exact ⟨.invalidIndex, by simp [conGet, ha, h0, h1]⟩
       · refine ⟨.invalidIndex, ?_⟩
-        simp only [conGet, hk, if_false, ha, h0, if_true, h1]
+        simp only [conGet, ha, h0, if_true, h1]
         split <;> rfl
 
-/-- `get` does not look at `self` for a non-empty key -/
-theorem conGet_self (o : Opts) (s s' : Node) (con : Node) (key : Bytes) (hk : key ≠ []) :
+/-- `get` does not look at `self` -/
+theorem conGet_self (o : Opts) (s s' : Node) (con : Node) (key : Bytes) :
     conGet o s con key = conGet o s' con key := by
-  cases con <;> simp [conGet, hk]
+  cases con <;> simp [conGet]
 
 /-! ### `set` -/
 
